@@ -26,7 +26,8 @@ type replayOutcome struct {
 
 // nativeReplay runs the vectors in dir (all of one package) against /repo's
 // working tree with `go test -overlay`.
-func nativeReplay(pkgRel string, vecDir string, tier int, workDir string, race bool) (map[string]*replayOutcome, string, error) {
+func nativeReplay(pkgRel string, vecDir string, tier int, workDir string, raceID string) (map[string]*replayOutcome, string, error) {
+	race := raceID != ""
 	ov, _, err := harnessOverlay(false)
 	if err != nil {
 		return nil, "", err
@@ -115,7 +116,7 @@ func nativeReplay(pkgRel string, vecDir string, tier int, workDir string, race b
 			cur = nil
 		case cur == nil:
 		case strings.Contains(l, "WARNING: DATA RACE"):
-			cur.fails = append(cur.fails, "C13.race-free")
+			cur.fails = append(cur.fails, raceID)
 		case strings.HasPrefix(l, "VFFAIL "):
 			cur.fails = append(cur.fails, strings.TrimPrefix(l, "VFFAIL "))
 		case strings.HasPrefix(l, "VFREACH "):
@@ -135,7 +136,7 @@ func nativeReplay(pkgRel string, vecDir string, tier int, workDir string, race b
 		// one vector per process in race mode: the report may be printed after
 		// the VFEND line (stderr / stdout interleaving)
 		for _, o := range res {
-			o.fails = append(o.fails, "C13.race-free")
+			o.fails = append(o.fails, raceID)
 		}
 	}
 	if len(res) == 0 && rerr != nil {
@@ -271,24 +272,41 @@ func finishCheck(prop, tierName string, tier, seed int, jobs []*job, tmp string,
 		var out map[string]*replayOutcome
 		var log string
 		var err error
-		if prop == "C13" {
-			// the race detector reports each racing pair of stacks once per
-			// process: one process per vector
-			out = map[string]*replayOutcome{}
-			for _, v := range vs {
-				one, _ := os.MkdirTemp(tmp, "vec1")
-				writeJSON(filepath.Join(one, names[v]), v)
-				o1, l1, e1 := nativeReplay(pkgRel, one, tier, tmp, true)
-				for k, x := range o1 {
-					out[k] = x
-				}
-				log += l1
-				if e1 != nil {
-					err = e1
-				}
+		// entries that run two goroutines (C13; *Concurrent entries elsewhere) are
+		// replayed under the race detector, which reports each racing pair of
+		// stacks once per process: one process per vector
+		var plain []*Vector
+		out = map[string]*replayOutcome{}
+		for _, v := range vs {
+			rid := raceIDFor(prop, v)
+			if rid == "" {
+				plain = append(plain, v)
+				continue
 			}
-		} else {
-			out, log, err = nativeReplay(pkgRel, vdir, tier, tmp, false)
+			one, _ := os.MkdirTemp(tmp, "vec1")
+			writeJSON(filepath.Join(one, names[v]), v)
+			o1, l1, e1 := nativeReplay(pkgRel, one, tier, tmp, rid)
+			for k, x := range o1 {
+				out[k] = x
+			}
+			log += l1
+			if e1 != nil {
+				err = e1
+			}
+		}
+		if len(plain) > 0 {
+			pdir, _ := os.MkdirTemp(tmp, "vecp")
+			for _, v := range plain {
+				writeJSON(filepath.Join(pdir, names[v]), v)
+			}
+			o2, l2, e2 := nativeReplay(pkgRel, pdir, tier, tmp, "")
+			for k, x := range o2 {
+				out[k] = x
+			}
+			log += l2
+			if e2 != nil {
+				err = e2
+			}
 		}
 		if err != nil {
 			fmt.Fprintf(os.Stderr, "REPLAY ERROR for %s: %v\n%s\n", pkg, err, tail(log, 3000))
@@ -607,7 +625,11 @@ func replayMain(args []string) int {
 	vdir := filepath.Join(tmp, "vec")
 	os.MkdirAll(vdir, 0o755)
 	writeJSON(filepath.Join(vdir, "v0000.json"), &v)
-	out, log, err := nativeReplay(strings.TrimPrefix(v.Pkg, repoMod+"/"), vdir, 0, tmp, strings.Contains(v.Entry, "C13"))
+	prop := ""
+	if i := strings.Index(v.Entry, "Vf"); i >= 0 && len(v.Entry) >= i+5 {
+		prop = v.Entry[i+2 : i+5]
+	}
+	out, log, err := nativeReplay(strings.TrimPrefix(v.Pkg, repoMod+"/"), vdir, 0, tmp, raceIDFor(prop, &v))
 	if err != nil {
 		fmt.Fprintln(os.Stderr, err)
 		fmt.Fprintln(os.Stderr, log)
@@ -635,4 +657,19 @@ func replayMain(args []string) int {
 	}
 	fmt.Println("not reproduced")
 	return 0
+}
+
+// raceIDFor: the obligation id under which a data race reported by the race
+// detector is recorded for this vector; "" if the entry is single-threaded.
+func raceIDFor(prop string, v *Vector) string {
+	if prop == "C13" {
+		return "C13.race-free"
+	}
+	if strings.Contains(v.Entry, "Concurrent") {
+		if strings.HasSuffix(v.Expect, "race-free") {
+			return v.Expect
+		}
+		return prop + ".concurrent.race-free"
+	}
+	return ""
 }
